@@ -101,11 +101,32 @@ def _impl_worker(args):
     logging.disable(logging.CRITICAL)
     mod = importlib.import_module(modname)
     out = []
+    import signal
+
+    class _CaseTimeout(BaseException):
+        pass
+
+    def _on_alarm(signum, frame):
+        raise _CaseTimeout()
+
+    limit = int(os.environ.get("VERIF_CASE_TIMEOUT", "300"))
+    try:
+        signal.signal(signal.SIGALRM, _on_alarm)
+    except (ValueError, OSError):
+        limit = 0
     for c in cases:
         try:
+            if limit:
+                signal.alarm(limit)
             out.append(["ok", mod.run_impl(c)])
+        except _CaseTimeout:
+            # a call of the library that does not return is reported, not waited for
+            out.append(["harness-exc", "the implementation did not return within %d s on this case (hang)" % limit])
         except BaseException as e:  # harness bug or unexpected escape
             out.append(["harness-exc", type(e).__name__ + ": " + str(e)[:300] + " @ " + traceback.format_exc()[-600:]])
+        finally:
+            if limit:
+                signal.alarm(0)
     return os.getpid(), out
 
 
